@@ -27,8 +27,8 @@ _JUDGED = [0]  # number of states the oracle judged in the current replay (non-v
 def _cls(err, kappa, mag, sig):
     """Class of a wrong ratio: on a very ill-conditioned (but poised, not truncated) set an error within
     1e3*eps*kappa^2 times the term magnitudes belongs to the known finding D31 (the formula loses kappa^2); any
-    other error, and any error on a set with kappa < 1e8, keeps the plain key and fails the check."""
-    if kappa >= 1e8 and abs(err) <= 1e3 * EPS * kappa * kappa * (mag + abs(sig)):
+    other error, and any error on a set with kappa < 1e6, keeps the plain key and fails the check."""
+    if kappa >= 1e6 and abs(err) <= 1e3 * EPS * kappa * kappa * (mag + abs(sig)):
         return ":conditioning-squared"
     return ""
 
